@@ -78,6 +78,7 @@ impl Wake for FlushWaker {
 }
 
 struct Shared {
+    live_bound: u64,
     hist: History,
     ctl: Arc<StreamCtl>,
     stop: AtomicBool,
@@ -133,7 +134,7 @@ fn do_flush(sh: &Shared, h: &Handle, op: &Value) {
     });
     let waker = Waker::from(fw.clone());
     let mut cx = Context::from_waker(&waker);
-    let bound = ju(op, "bound", u64::MAX);
+    let bound = sh.live_bound;
     let slice_ns = ju(op, "slice_ns", 10_000).max(1);
     let deadline = op.get("ns").and_then(|x| x.as_u64()).map(|ns| detsim::clock_ns() + ns);
     let mut first = true;
@@ -235,6 +236,34 @@ fn run_ops(sh: &Arc<Shared>, h: &Handle, thread: u64, ops: &[Value]) {
     }
 }
 
+fn count_appends(ops: &[Value]) -> u64 {
+    ops.iter().filter(|o| js(o, "op", "") == "append").map(|o| ju(o, "n", 1)).sum()
+}
+
+/// Forget path: simulated time of one settle cycle: one flush interval + generous per-entry
+/// processing time.
+pub fn forget_settle_ns(plan: &Value) -> u64 {
+    let interval = ju(plan, "flush_interval_ns", 1_000_000_000).clamp(1, 59_999_999_999);
+    let mut entries = count_appends(ja(plan, "main_ops")) + count_appends(ja(plan, "post")) + count_appends(ja(plan, "pre_end"));
+    for p in ja(plan, "producers") {
+        entries += count_appends(p.as_array().map(|a| a.as_slice()).unwrap_or(&[]));
+    }
+    interval + 2 * (entries + 4) * (ju(plan, "next_cost_ns", 0) + 1_000_000) + 1_000_000
+}
+
+/// Liveness bound in completed stream writes (DESIGN.md C04): 4 x (capacity + 2F + 64) with
+/// F = ceil(flush_interval / cost of one write). None if a write costs no simulated time.
+pub fn liveness_bound(plan: &Value) -> Option<u64> {
+    let cost = ju(plan, "next_cost_ns", 0);
+    if cost == 0 {
+        return None;
+    }
+    let interval = ju(plan, "flush_interval_ns", 1_000_000_000).clamp(1, 59_999_999_999);
+    let f = interval.div_ceil(cost);
+    let cap = ju(plan, "capacity", 64).max(1);
+    Some(4 * (cap + 2 * f + 64))
+}
+
 fn has_pressure(ops: &[Value]) -> bool {
     ops.iter().any(|o| js(o, "op", "") == "pressure")
 }
@@ -284,6 +313,7 @@ fn queue_main(plan: &Value, slot: Arc<Mutex<Option<QueueRun>>>) {
         (Handle::Typed(q), j)
     };
     let sh = Arc::new(Shared {
+        live_bound: liveness_bound(plan).unwrap_or(u64::MAX),
         hist: hist.clone(),
         ctl: ctl.clone(),
         stop: AtomicBool::new(false),
@@ -344,6 +374,8 @@ fn queue_main(plan: &Value, slot: Arc<Mutex<Option<QueueRun>>>) {
     for t in pressure {
         let _ = t.join();
     }
+    let pre_end: Vec<Value> = ja(plan, "pre_end").to_vec();
+    run_ops(&sh, &handle, 800, &pre_end);
     if !end_before_join {
         do_end(&mut join);
     }
@@ -360,10 +392,35 @@ fn queue_main(plan: &Value, slot: Arc<Mutex<Option<QueueRun>>>) {
         let fin = writer_tid.map(detsim::thread_finished).unwrap_or(false);
         hist.log(K::DropHandleEnd { writer_finished: fin });
     }
-    // settle: give the writer simulated time to notice (forget path), then look
-    let settle = ju(plan, "settle_ns", 0);
-    if settle > 0 {
-        detsim::sleep_ns(settle);
+    // Forget path: faults stop; then the writer gets four full park cycles (each: one flush
+    // interval plus per-entry processing allowance of simulated time, and the chance to run
+    // until it blocks again) to notice that the last handle is gone. The code as written needs
+    // at most two. Derived from the plan's primitives, never stored, so that shrinking a plan
+    // cannot tighten the oracle.
+    if js(plan, "end", "drop") == "forget" {
+        detsim::stop_faults();
+        if let Some(w) = writer_tid {
+            for _ in 0..4 {
+                detsim::sleep_ns(forget_settle_ns(plan));
+                let mut guard = 0;
+                loop {
+                    let (blocked, finished, _) = detsim::thread_status(w);
+                    if blocked || finished || guard >= 20_000 {
+                        break;
+                    }
+                    detsim::sleep_ns(1_000);
+                    guard += 1;
+                }
+                if detsim::thread_finished(w) {
+                    break;
+                }
+            }
+        }
+    } else {
+        let settle = ju(plan, "settle_ns", 0);
+        if settle > 0 {
+            detsim::sleep_ns(settle);
+        }
     }
     let fin = writer_tid.map(detsim::thread_finished).unwrap_or(true);
     let run = QueueRun {
@@ -861,5 +918,696 @@ impl Scenario for QueueFifo {
     }
     fn rule(&self) -> &'static str {
         "each run: seeded plan (1-4 producers x 0-40 entries, typed or boxed handle, capacity >= total, flush interval 1us-59s, per-entry Ok/Validation/Io script, flush requests awaited or cancelled) under a seeded schedule (random / weighted / PCT, stalls, clock jumps). non-trivial = at least 2 simulated threads and at least one preemption at a non-blocking point; distinct = distinct (context-switch signature, producer op lists)"
+    }
+}
+
+// ------------------------------------------------------------------------------------------
+// C09 — full queue: drop oldest, keep order, count losses, never block
+// ------------------------------------------------------------------------------------------
+
+fn overflow_counter(run: &QueueRun) -> u64 {
+    run.counters.get("metrique_queue_overflows{sink=q}").copied().unwrap_or(0)
+}
+
+pub fn check_c09(plan: &Value, run: &QueueRun, d: &Digest) -> Option<Violation> {
+    let cap = ju(plan, "capacity", 1).max(1);
+    for (id, e) in &d.entries {
+        if e.blocked {
+            return Some(Violation::new("append_blocked", format!("append of {} entered a blocked state", fmt_id(*id))));
+        }
+        if e.panicked {
+            return Some(Violation::new("append_panicked", format!("append of {} panicked", fmt_id(*id))));
+        }
+    }
+    if let Some(v) = check_no_dup_and_order(d, "") {
+        return Some(v);
+    }
+    // an entry is lost only if at least `capacity` newer entries were appended
+    let rets: Vec<u64> = d.entries.values().filter_map(|e| e.ret).collect();
+    let mut lost = 0u64;
+    let mut appended = 0u64;
+    for (id, e) in &d.entries {
+        if e.ret.is_none() {
+            continue;
+        }
+        appended += 1;
+        if e.next_begin.is_empty() {
+            lost += 1;
+            let newer = rets.iter().filter(|r| **r > e.inv).count() as u64 - 1; // minus e itself
+            if newer < cap {
+                return Some(Violation::new(
+                    "lost_without_overflow",
+                    format!(
+                        "entry {} never reached the stream although only {} other appends returned after its append began (capacity {})",
+                        fmt_id(*id), newer, cap
+                    ),
+                ));
+            }
+        }
+    }
+    // single producer, writer completely stalled until the end: exactly the newest `capacity`
+    // entries survive, plus at most one entry the writer had already taken
+    if jb(plan, "stalled_single", false) {
+        let ids: Vec<u64> = d.entries.iter().filter(|(_, e)| e.ret.is_some()).map(|(id, _)| *id).collect();
+        let n = ids.len() as u64;
+        let keep = n.min(cap) as usize;
+        for id in &ids[ids.len() - keep..] {
+            if d.entries[id].next_begin.is_empty() {
+                return Some(Violation::new(
+                    "newest_entry_dropped",
+                    format!("entry {} is among the newest {} appended (capacity {}) but never reached the stream", fmt_id(*id), keep, cap),
+                ));
+            }
+        }
+        let delivered = d.delivery.len() as u64;
+        if delivered > n.min(cap) + 1 {
+            return Some(Violation::new(
+                "too_many_survivors",
+                format!("{delivered} entries delivered from a stalled queue of capacity {cap}"),
+            ));
+        }
+    }
+    if jb(plan, "recorder", false) {
+        let c = overflow_counter(run);
+        if c != lost {
+            return Some(Violation::new(
+                "overflow_counter_mismatch",
+                format!("metrique_queue_overflows = {c}, but {lost} of {appended} appended entries were discarded"),
+            ));
+        }
+    }
+    None
+}
+
+pub fn gen_c09(rng: &mut Rng, _tier: Tier) -> Value {
+    let cap = 1 + rng.below(8);
+    let stalled_single = rng.chance(0.25);
+    let np = if stalled_single { 1 } else { 1 + rng.below(3) };
+    let flush_interval = INTERVALS[1 + rng.usize_below(INTERVALS.len() - 1)];
+    let mut producers = vec![];
+    let mut total = 0;
+    for _ in 0..np {
+        let n = rng.below(6 * cap / np.max(1) + 3);
+        total += n;
+        let mut ops = vec![];
+        let mut left = n;
+        while left > 0 {
+            let k = 1 + rng.below(left.min(2 * cap));
+            ops.push(json!({"op":"append","n":k}));
+            left -= k;
+            if !stalled_single {
+                match rng.below(8) {
+                    0 => ops.push(json!({"op":"gate","n": 1 + rng.below(cap + 2)})),
+                    1 => ops.push(json!({"op":"sleep","ns": rel_sleep(rng, flush_interval)})),
+                    2 => ops.push(json!({"op":"flush","mode":"cancel"})),
+                    _ => {}
+                }
+            }
+        }
+        producers.push(Value::Array(ops));
+    }
+    let mut main_ops = vec![];
+    if !stalled_single {
+        for _ in 0..rng.below(4) {
+            match rng.below(3) {
+                0 => main_ops.push(json!({"op":"gate","n": 1 + rng.below(2 * cap + 1)})),
+                1 => main_ops.push(json!({"op":"sleep","ns": rel_sleep(rng, flush_interval)})),
+                _ => main_ops.push(json!({"op":"append","n": 1 + rng.below(cap + 1)})),
+            }
+        }
+    }
+    let gate0 = if stalled_single { 0 } else { [0i64, 0, 1, 3, -1][rng.usize_below(5)] };
+    let sched = gen_sched(
+        rng,
+        &SchedOpts { est_choices: 40 + total * 10, threads: np + 1, jump_max_ns: 60_000_000_000, stall_clock_max_ns: 10_000_000_000, max_steps: 60_000 },
+    );
+    json!({
+        "scenario": "queue_overflow",
+        "sched": sched,
+        "boxed": rng.chance(0.4),
+        "capacity": cap,
+        "flush_interval_ns": flush_interval,
+        "shutdown_timeout_ns": 1_000_000_000_000_000u64,
+        "recorder": rng.chance(0.85),
+        "next_cost_ns": *rng.pick(&[0u64, 1_000, 300_000]),
+        "gate": gate0,
+        "script": if rng.chance(0.2) { Value::Array(gen_script(rng, &[6, 6, 6], 0.2)) } else { json!([]) },
+        "report_res": "O",
+        "flush_fail": [],
+        "producers": producers,
+        "main_ops": main_ops,
+        "pre_end": [{"op":"gate_open"}],
+        "end": "drop",
+        "end_before_join": false,
+        "post": [],
+        "stalled_single": stalled_single,
+    })
+}
+
+pub struct QueueOverflow;
+
+impl Scenario for QueueOverflow {
+    fn name(&self) -> &'static str {
+        "queue_overflow"
+    }
+    fn property(&self) -> &'static str {
+        "C09"
+    }
+    fn generate(&self, rng: &mut Rng, tier: Tier) -> Value {
+        gen_c09(rng, tier)
+    }
+    fn run(&self, plan: &Value) -> Report {
+        let (out, run) = run_queue_plan(plan);
+        let mut r = Report::default();
+        if let Some(run) = &run {
+            let d = digest(&run.hist);
+            let lost = d.entries.values().filter(|e| e.ret.is_some() && e.next_begin.is_empty()).count() as u64;
+            r.fault("capacity_pressure", lost);
+            r.probe("entries_displaced", lost);
+            if ju(plan, "capacity", 0) == 1 && lost > 0 {
+                r.probe("displacement_at_capacity_1", 1);
+            }
+            // displaced by a different producer: a lost entry whose `capacity` next newer appends include another thread
+            let multi = ja(plan, "producers").len() > 1 && lost > 0;
+            if multi {
+                r.probe("displacement_with_several_producers", 1);
+            }
+            let gate_waits = run.hist.iter().filter(|e| matches!(e.k, K::NextBegin { .. })).count() as u64;
+            let _ = gate_waits;
+        }
+        r.fault("gate_closed", (ji(plan, "gate", -1) >= 0) as u64);
+        finish_report(r, out, run, plan, check_c09, false)
+    }
+    fn probes(&self) -> Vec<&'static str> {
+        vec!["entries_displaced", "displacement_at_capacity_1", "displacement_with_several_producers", "append_while_writer_parked"]
+    }
+    fn components(&self) -> Value {
+        queue_components()
+    }
+    fn rule(&self) -> &'static str {
+        "each run: capacity 1-8, 1-3 producers appending up to ~6x capacity, stream gated (closed, or opened for k entries at a time; a quarter of the runs: single producer against a completely stalled writer), local metrics recorder; seeded schedule. non-trivial = >= 2 threads and >= 1 preemption; distinct = distinct (context-switch signature, producer op lists)"
+    }
+}
+
+// ------------------------------------------------------------------------------------------
+// C04 — flush barrier (safety), bounded progress (liveness), immediate after shutdown
+// ------------------------------------------------------------------------------------------
+
+pub fn check_c04(plan: &Value, run: &QueueRun, d: &Digest) -> Option<Violation> {
+    let overflow_possible = {
+        let appended = d.entries.values().filter(|e| e.ret.is_some()).count() as u64;
+        appended > ju(plan, "capacity", 1)
+    };
+    for (fid, (c, first_poll)) in &d.flush_done {
+        let Some(r) = d.flush_req.get(fid) else { continue };
+        // after shutdown: must complete on the first poll
+        if let Some((x, _)) = d.drop_end {
+            if *r > x && !*first_poll {
+                return Some(Violation::new(
+                    "flush_after_shutdown_not_immediate",
+                    format!("flush #{fid} was requested after the queue had shut down but was not ready on its first poll"),
+                ));
+            }
+            if *r > x {
+                continue;
+            }
+        }
+        let mut last_next_end = 0u64;
+        for (id, e) in &d.entries {
+            let Some(ret) = e.ret else { continue };
+            if ret >= *r {
+                continue;
+            }
+            match e.next_end.first() {
+                Some((ne, _)) if *ne < *c => last_next_end = last_next_end.max(*ne),
+                Some((ne, _)) => {
+                    return Some(Violation::new(
+                        "flush_completed_before_written",
+                        format!(
+                            "flush #{fid} (requested at #{r}) completed at #{c}, but entry {} appended before the request was only handed to the stream at #{ne}",
+                            fmt_id(*id)
+                        ),
+                    ));
+                }
+                None => {
+                    // never delivered in the whole run: only legitimate as an overflow loss, i.e.
+                    // at least `capacity` other appends returned after this append began (C09)
+                    let cap = ju(plan, "capacity", 1).max(1);
+                    let newer = d.entries.values().filter(|o| o.ret.map(|r| r > e.inv).unwrap_or(false)).count() as u64 - 1;
+                    let counted = if jb(plan, "recorder", false) { overflow_counter(run) >= 1 } else { true };
+                    if !(overflow_possible && counted && newer >= cap) {
+                        return Some(Violation::new(
+                            "flush_completed_before_written",
+                            format!(
+                                "flush #{fid} completed at #{c}, but entry {} appended before the request never reached the stream (and was not an overflow loss)",
+                                fmt_id(*id)
+                            ),
+                        ));
+                    }
+                }
+            }
+        }
+        if last_next_end > 0 {
+            let flushed = d.flushes.iter().any(|(b, e, _)| *b > last_next_end && e.map(|e| e < *c).unwrap_or(false));
+            if !flushed {
+                return Some(Violation::new(
+                    "flush_completed_without_stream_flush",
+                    format!(
+                        "flush #{fid} completed at #{c}, but the stream was not flushed between the last covered entry (#{last_next_end}) and the completion"
+                    ),
+                ));
+            }
+        }
+    }
+    if let Some((fid, n)) = d.flush_gave_up.iter().next() {
+        return Some(Violation::new(
+            "flush_not_completed_within_bound",
+            format!(
+                "flush #{fid} was still pending after the writer had completed {n} further stream writes (bound {}; capacity {}, flush interval {} ns, {} ns per write)",
+                liveness_bound(plan).unwrap_or(0), ju(plan, "capacity", 0), ju(plan, "flush_interval_ns", 0), ju(plan, "next_cost_ns", 0)
+            ),
+        ));
+    }
+    None
+}
+
+pub fn gen_c04_safety(rng: &mut Rng, _tier: Tier) -> Value {
+    let sustained = rng.chance(0.5);
+    let cap = if sustained { 33 + rng.below(32) } else { 1 + rng.below(40) };
+    let next_cost = *rng.pick(&[1_000u64, 20_000, 300_000]);
+    // sustained flavour: the drain must hit its deadline (checked every 32 entries)
+    let flush_interval = if sustained { next_cost * (4 + rng.below(40)) } else { INTERVALS[1 + rng.usize_below(INTERVALS.len() - 1)] };
+    let nf = 1 + rng.below(3);
+    let mut producers = vec![];
+    let mut total = 0u64;
+    for _ in 0..nf {
+        let mut ops = vec![];
+        for _ in 0..(1 + rng.below(4)) {
+            let k = rng.below(if sustained { 12 } else { cap.min(10) + 2 });
+            if k > 0 {
+                ops.push(json!({"op":"append","n":k}));
+                total += k;
+            }
+            let mode = *rng.pick(&["await", "await", "await", "cancel"]);
+            ops.push(json!({"op":"flush","mode":mode}));
+            if rng.chance(0.3) {
+                ops.push(json!({"op":"sleep","ns": rel_sleep(rng, flush_interval)}));
+            }
+        }
+        producers.push(Value::Array(ops));
+    }
+    if sustained {
+        producers.push(json!([{"op":"pressure","target": cap - 1 - rng.below(3), "max": 40 + rng.below(200), "others_in_flight": 0}]));
+    } else if rng.chance(0.5) {
+        let n = rng.below(3 * cap + 4);
+        total += n;
+        producers.push(json!([{"op":"append","n": n}]));
+    }
+    let gate0 = if sustained { -1 } else { *rng.pick(&[-1i64, -1, 0, 2]) };
+    let mut main_ops = vec![];
+    if gate0 >= 0 {
+        for _ in 0..(1 + rng.below(3)) {
+            main_ops.push(json!({"op":"sleep","ns": rel_sleep(rng, flush_interval)}));
+            main_ops.push(json!({"op":"gate","n": 1 + rng.below(cap + 3)}));
+        }
+        main_ops.push(json!({"op":"gate_open"}));
+    }
+    let sched = gen_sched(
+        rng,
+        &SchedOpts { est_choices: 100 + total * 12, threads: nf + 2, jump_max_ns: if sustained { flush_interval * 50 } else { 60_000_000_000 }, stall_clock_max_ns: flush_interval * 20, max_steps: 120_000 },
+    );
+    json!({
+        "scenario": "queue_flush_barrier",
+        "sched": sched,
+        "boxed": rng.chance(0.5),
+        "capacity": cap,
+        "flush_interval_ns": flush_interval,
+        "shutdown_timeout_ns": 1_000_000_000_000_000u64,
+        "recorder": true,
+        "next_cost_ns": next_cost,
+        "gate": gate0,
+        "script": if rng.chance(0.2) { Value::Array(gen_script(rng, &[8, 8, 8, 8], 0.15)) } else { json!([]) },
+        "report_res": "O",
+        "flush_fail": if rng.chance(0.15) { json!([rng.below(6)]) } else { json!([]) },
+        "producers": producers,
+        "main_ops": main_ops,
+        "pre_end": [{"op":"gate_open"}],
+        "end": "drop",
+        "end_before_join": false,
+        "post": if rng.chance(0.5) { json!([{"op":"flush","mode":"await"}, {"op":"append","n":1}, {"op":"flush","mode":"await"}]) } else { json!([]) },
+        "sustained": sustained,
+    })
+}
+
+pub fn gen_c04_liveness(rng: &mut Rng, _tier: Tier) -> Value {
+    let cap = 2 + rng.below(63);
+    let next_cost = *rng.pick(&[1_000u64, 10_000, 250_000]);
+    let f = 1 + rng.below(120); // flush interval in units of one stream write
+    let flush_interval = next_cost * f;
+    // DESIGN.md C04: K = capacity + 2F + 64; a violation is only reported beyond 4K
+    let k = cap + 2 * f + 64;
+    let bound = 4 * k;
+    let nf = 1 + rng.below(3);
+    let mut producers = vec![];
+    for _ in 0..nf {
+        let mut ops = vec![json!({"op":"sleep","ns": next_cost * (1 + rng.below(3 * f + 40))})];
+        for _ in 0..(1 + rng.below(3)) {
+            ops.push(json!({"op":"flush","mode":"bounded", "slice_ns": next_cost * 16}));
+            if rng.chance(0.5) {
+                ops.push(json!({"op":"sleep","ns": next_cost * (1 + rng.below(f + 10))}));
+            }
+        }
+        producers.push(Value::Array(ops));
+    }
+    producers.push(json!([{"op":"pressure","target": (cap - 1).max(1) - rng.below(2).min(cap.saturating_sub(2)), "max": 40 * bound, "others_in_flight": 0}]));
+    // faults (stall / jumps) only in the first phase; main then declares "faults stop"
+    let mut sched = gen_sched(
+        rng,
+        &SchedOpts { est_choices: 2_000, threads: nf + 2, jump_max_ns: flush_interval * 30, stall_clock_max_ns: flush_interval * 10, max_steps: 900_000 },
+    );
+    // the requester must get to run: no PCT starvation games here (scheduling randomness stays)
+    if js(&sched["strategy"], "kind", "") == "pct" {
+        sched["strategy"] = json!({"kind":"random","p":0.3});
+    }
+    json!({
+        "scenario": "queue_flush_liveness",
+        "sched": sched,
+        "boxed": rng.chance(0.5),
+        "capacity": cap,
+        "flush_interval_ns": flush_interval,
+        "shutdown_timeout_ns": 1_000_000_000_000_000u64,
+        "recorder": false,
+        "next_cost_ns": next_cost,
+        "gate": -1,
+        "script": [],
+        "report_res": "O",
+        "flush_fail": [],
+        "producers": producers,
+        "main_ops": [{"op":"sleep","ns": next_cost * (1 + rng.below(2 * f + 20))}, {"op":"stop_faults"}],
+        "pre_end": [],
+        "end": "drop",
+        "end_before_join": false,
+        "post": [],
+    })
+}
+
+pub struct QueueFlushBarrier;
+pub struct QueueFlushLiveness;
+
+fn c04_probes(r: &mut Report, plan: &Value, run: &Option<QueueRun>) {
+    if let Some(run) = run {
+        let d = digest(&run.hist);
+        // completion while entries were still queued = the count-down path of the waker tracker
+        let mut appended = 0i64;
+        let mut nexts = 0i64;
+        let mut countdown = 0;
+        let mut drained = 0;
+        for e in &run.hist {
+            match &e.k {
+                K::AppendEnd { .. } => appended += 1,
+                K::NextBegin { report: false, .. } => nexts += 1,
+                K::FlushDone { first_poll: false, .. } => {
+                    if appended - nexts >= 1 { countdown += 1 } else { drained += 1 }
+                }
+                _ => {}
+            }
+        }
+        r.probe("flush_completed_with_queue_nonempty", countdown);
+        r.probe("flush_completed_with_queue_drained", drained);
+        r.probe("flush_first_poll_ready_after_shutdown", d.flush_done.iter().filter(|(fid, (_, fp))| *fp && d.drop_end.map(|(x, _)| d.flush_req[*fid] > x).unwrap_or(false)).count() as u64);
+        let lost = d.entries.values().filter(|e| e.ret.is_some() && e.next_begin.is_empty()).count() as u64;
+        r.fault("capacity_pressure", lost);
+        r.fault("gate_closed", (ji(plan, "gate", -1) >= 0) as u64);
+    }
+}
+
+impl Scenario for QueueFlushBarrier {
+    fn name(&self) -> &'static str {
+        "queue_flush_barrier"
+    }
+    fn property(&self) -> &'static str {
+        "C04"
+    }
+    fn weight(&self, _t: Tier) -> u32 {
+        3
+    }
+    fn generate(&self, rng: &mut Rng, tier: Tier) -> Value {
+        gen_c04_safety(rng, tier)
+    }
+    fn run(&self, plan: &Value) -> Report {
+        let (out, run) = run_queue_plan(plan);
+        let mut r = Report::default();
+        c04_probes(&mut r, plan, &run);
+        finish_report(r, out, run, plan, check_c04, false)
+    }
+    fn probes(&self) -> Vec<&'static str> {
+        vec!["flush_completed_with_queue_nonempty", "flush_completed_with_queue_drained", "flush_first_poll_ready_after_shutdown", "flush_requested_while_writer_parked", "flush_with_nonempty_queue"]
+    }
+    fn components(&self) -> Value {
+        queue_components()
+    }
+    fn rule(&self) -> &'static str {
+        "each run: 1-3 flusher threads (append k, flush await/cancel) plus bulk or sustained-pressure producers, capacity 1-64 (half the runs >= 33 with a flush interval of 4-43 stream writes so that drains hit their deadline and the waker count-down path runs), gated or slow stream, overflow allowed, flush requests after shutdown. non-trivial = >= 2 threads and >= 1 preemption; distinct = distinct (context-switch signature, producer op lists)"
+    }
+}
+
+impl Scenario for QueueFlushLiveness {
+    fn name(&self) -> &'static str {
+        "queue_flush_liveness"
+    }
+    fn property(&self) -> &'static str {
+        "C04"
+    }
+    fn weight(&self, _t: Tier) -> u32 {
+        1
+    }
+    fn generate(&self, rng: &mut Rng, tier: Tier) -> Value {
+        gen_c04_liveness(rng, tier)
+    }
+    fn run(&self, plan: &Value) -> Report {
+        let (out, run) = run_queue_plan(plan);
+        let mut r = Report::default();
+        c04_probes(&mut r, plan, &run);
+        finish_report(r, out, run, plan, check_c04, false)
+    }
+    fn probes(&self) -> Vec<&'static str> {
+        vec!["flush_completed_with_queue_nonempty"]
+    }
+    fn components(&self) -> Value {
+        queue_components()
+    }
+    fn rule(&self) -> &'static str {
+        "each run: a pressure producer keeps the queue non-empty without overflowing it, every stream write costs a fixed delta of simulated time, flush interval = 1-120 writes, capacity 2-64; after `faults stop` 1-3 requester threads issue bounded flushes; the bound is counted in completed stream writes at the moment of the wake-up (4 x (capacity + 2F + 64)). non-trivial / distinct as above"
+    }
+}
+
+// ------------------------------------------------------------------------------------------
+// C05 — shutdown drains, flushes, closes; the writer terminates (drop and forget paths)
+// ------------------------------------------------------------------------------------------
+
+pub fn check_c05(plan: &Value, run: &QueueRun, d: &Digest) -> Option<Violation> {
+    if let Some(v) = check_no_dup_and_order(d, "") {
+        return Some(v);
+    }
+    let lossy = jb(plan, "lossy_shutdown", false);
+    let late_space = 900u64;
+    if let (Some(b), Some((x, writer_finished))) = (d.drop_begin, d.drop_end) {
+        let explicit_drop = js(plan, "end", "drop") == "drop";
+        if explicit_drop {
+            let mut last_next_end = 0u64;
+            for (id, e) in &d.entries {
+                let Some(ret) = e.ret else { continue };
+                if ret < b {
+                    match e.next_end.first() {
+                        Some((ne, _)) if *ne < x => last_next_end = last_next_end.max(*ne),
+                        _ => {
+                            if !lossy {
+                                return Some(Violation::new(
+                                    "shutdown_lost_entry",
+                                    format!("entry {} was appended before the join handle was dropped but had not been handed to the stream when the drop returned", fmt_id(*id)),
+                                ));
+                            }
+                        }
+                    }
+                }
+                if e.inv > x && !e.next_begin.is_empty() {
+                    return Some(Violation::new(
+                        "late_entry_written",
+                        format!("entry {} was appended after shutdown completed but reached the stream", fmt_id(*id)),
+                    ));
+                }
+            }
+            let flushed = d.flushes.iter().any(|(fb, fe, _)| *fb > last_next_end && fe.map(|e| e < x).unwrap_or(false));
+            if !flushed {
+                return Some(Violation::new("shutdown_without_flush", "the stream was not flushed after its last entry before the drop of the join handle returned"));
+            }
+            match d.stream_drop {
+                Some(sd) if sd < x => {}
+                _ => return Some(Violation::new("stream_not_closed", "the stream had not been dropped when the drop of the join handle returned")),
+            }
+            if !writer_finished {
+                return Some(Violation::new("writer_not_terminated", "the writer thread was still alive when the drop of the join handle returned"));
+            }
+        }
+    }
+    if d.forget.is_some() {
+        // forget path: once the last handle is gone (and the settle time has passed) everything
+        // accepted must be out, flushed, the stream closed and the thread gone
+        let mut last_next_end = 0u64;
+        for (id, e) in &d.entries {
+            if e.ret.is_some() {
+                match e.next_end.first() {
+                    Some((ne, _)) => last_next_end = last_next_end.max(*ne),
+                    None => {
+                        return Some(Violation::new(
+                            "forget_lost_entry",
+                            format!("entry {} was accepted by a forgotten queue but never reached the stream", fmt_id(*id)),
+                        ))
+                    }
+                }
+            }
+        }
+        if !run.writer_finished_at_end {
+            return Some(Violation::new(
+                "forget_writer_never_exits",
+                format!(
+                    "join handle forgotten, last queue handle dropped; after 4 writer park cycles of {} ns each (faults stopped) the writer thread is still running (stream dropped: {})",
+                    forget_settle_ns(plan), run.stream_dropped_at_end
+                ),
+            ));
+        }
+        if !run.stream_dropped_at_end {
+            return Some(Violation::new("forget_stream_not_closed", "the writer exited but the stream was never dropped"));
+        }
+        let flushed = d.flushes.iter().any(|(fb, _, _)| *fb > last_next_end);
+        if !flushed {
+            return Some(Violation::new("forget_without_flush", "the stream was not flushed after its last entry"));
+        }
+    }
+    let _ = late_space;
+    None
+}
+
+pub fn gen_c05(rng: &mut Rng, _tier: Tier) -> Value {
+    let forget = rng.chance(0.35);
+    let lossy = !forget && rng.chance(0.12);
+    let np = 1 + rng.below(3);
+    let flush_interval = INTERVALS[1 + rng.usize_below(INTERVALS.len() - 1)];
+    let next_cost = if lossy { 1_000_000 } else { *rng.pick(&[0u64, 500, 50_000]) };
+    let mut producers = vec![];
+    let mut total = 0u64;
+    for _ in 0..np {
+        let mut ops = vec![];
+        let n = if lossy { 30 + rng.below(30) } else { rng.below(16) };
+        let mut left = n;
+        total += n;
+        while left > 0 {
+            let k = 1 + rng.below(left.min(if lossy { 40 } else { 6 }));
+            ops.push(json!({"op":"append","n":k}));
+            left -= k;
+            if !lossy {
+                match rng.below(9) {
+                    0 => ops.push(json!({"op":"flush","mode":"await"})),
+                    1 => ops.push(json!({"op":"flush","mode":"cancel"})),
+                    2 => ops.push(json!({"op":"sleep","ns": rel_sleep(rng, flush_interval)})),
+                    3 => ops.push(json!({"op":"clone_churn"})),
+                    _ => {}
+                }
+            }
+        }
+        producers.push(Value::Array(ops));
+    }
+    let main_n = rng.below(5);
+    total += main_n + 8;
+    let mut main_ops = vec![];
+    if main_n > 0 {
+        main_ops.push(json!({"op":"append","n":main_n}));
+    }
+    if rng.chance(0.3) {
+        main_ops.push(json!({"op":"sleep","ns": rel_sleep(rng, flush_interval)}));
+    }
+    let end_before_join = !forget && !lossy && rng.chance(0.35);
+    let mut post = vec![];
+    if rng.chance(0.6) {
+        post.push(json!({"op":"append","n": 1 + rng.below(3)}));
+    }
+    if !forget && rng.chance(0.5) {
+        post.push(json!({"op":"sleep","ns": 2 * flush_interval}));
+        post.push(json!({"op":"append","n": 1}));
+    }
+    if forget && rng.chance(0.4) {
+        post.push(json!({"op":"flush","mode":"await"}));
+    }
+    let settle = if forget { 0 } else { 2 * flush_interval };
+    let sched = gen_sched(
+        rng,
+        &SchedOpts { est_choices: 60 + total * 12, threads: np + 1, jump_max_ns: if lossy { 0 } else { 30_000_000_000 }, stall_clock_max_ns: if lossy { 0 } else { flush_interval * 10 }, max_steps: 80_000 },
+    );
+    json!({
+        "scenario": "queue_shutdown",
+        "sched": sched,
+        "boxed": rng.chance(0.5),
+        "capacity": total.max(1) + 8,
+        "flush_interval_ns": flush_interval,
+        "shutdown_timeout_ns": if lossy { 1_000u64 } else { 1_000_000_000_000_000u64 },
+        "recorder": rng.chance(0.3),
+        "next_cost_ns": next_cost,
+        "gate": -1,
+        "script": if rng.chance(0.25) { Value::Array(gen_script(rng, &[10, 10, 10], 0.2)) } else { json!([]) },
+        "report_res": "O",
+        "flush_fail": if rng.chance(0.15) { json!([rng.below(5)]) } else { json!([]) },
+        "producers": producers,
+        "main_ops": main_ops,
+        "pre_end": [],
+        "end": if forget { "forget" } else { "drop" },
+        "end_before_join": end_before_join,
+        "post": post,
+        "settle_ns": settle,
+        "lossy_shutdown": lossy,
+    })
+}
+
+pub struct QueueShutdown;
+
+impl Scenario for QueueShutdown {
+    fn name(&self) -> &'static str {
+        "queue_shutdown"
+    }
+    fn property(&self) -> &'static str {
+        "C05"
+    }
+    fn generate(&self, rng: &mut Rng, tier: Tier) -> Value {
+        gen_c05(rng, tier)
+    }
+    fn run(&self, plan: &Value) -> Report {
+        let (out, run) = run_queue_plan(plan);
+        let mut r = Report::default();
+        if let Some(run) = &run {
+            let d = digest(&run.hist);
+            if let (Some(b), Some((x, _))) = (d.drop_begin, d.drop_end) {
+                let racing = d.entries.values().filter(|e| e.inv < x && e.ret.map(|r| r > b).unwrap_or(true)).count() as u64;
+                r.probe("append_racing_with_shutdown", racing);
+                let late = d.entries.values().filter(|e| e.inv > x).count() as u64;
+                r.fault("late_append", late);
+                r.probe("late_append_after_shutdown", late);
+            }
+            if d.forget.is_some() {
+                r.probe("forget_path_runs", 1);
+            }
+            if jb(plan, "lossy_shutdown", false) {
+                let lost = d.entries.values().filter(|e| e.ret.is_some() && e.next_begin.is_empty()).count() as u64;
+                r.probe("shutdown_timeout_hit_with_loss", (lost > 0) as u64);
+            }
+        }
+        finish_report(r, out, run, plan, check_c05, true)
+    }
+    fn probes(&self) -> Vec<&'static str> {
+        vec!["append_racing_with_shutdown", "late_append_after_shutdown", "forget_path_runs", "shutdown_timeout_hit_with_loss"]
+    }
+    fn components(&self) -> Value {
+        queue_components()
+    }
+    fn rule(&self) -> &'static str {
+        "each run: history over {append, clone+drop clone, flush await/cancel, sleep} on 1-3 producers + main, typed or boxed; ending = drop of the join handle (after or racing with the producers), or forget() followed by the drop of the last handle and a settle time of 3 flush intervals; late appends / flushes afterwards; 12% of the drop runs with a 1us shutdown timeout against a slow stream. non-trivial = >= 2 threads and >= 1 preemption; distinct = distinct (context-switch signature, producer op lists)"
     }
 }
